@@ -212,24 +212,59 @@ fn km_lay_agrees() {
     assert!(lay_array(&a).eq_slice(layout_array(&a).as_slice()));
 }
 
-// ------------------------------------------------------------------ C03 compact text
-/// scalar documents: a 1-byte string with an arbitrary ASCII byte (controls, quote, backslash included), compact and pretty
+// ------------------------------------------------------------------ C03 text
+/// Model of String::from_utf8_lossy for ASCII input (the precondition is CHECKED): the input itself, borrowed.
+/// The real function walks a UTF-8 chunk automaton whose symbolic execution costs minutes per call; all strings of
+/// these twins are ASCII by construction (ill-formed UTF-8 in documents is the subject of C10, not of C03).
+fn lossy_ascii(v: &[u8]) -> Cow<'_, str> {
+    let mut i = 0;
+    while i < v.len() {
+        assert!(v[i] < 0x80);
+        i += 1;
+    }
+    Cow::Borrowed(unsafe { std::str::from_utf8_unchecked(v) })
+}
+
+fn cstr(p: &[u8]) -> It {
+    It::from_parts(T_STRING, p)
+}
+
+/// null | true: payload-less items whose text has the same length (keeps every text position concrete)
+fn nt() -> It {
+    It { word: if kani::any() { T_NULL } else { T_TRUE }, pay: [0u8; PAYMAX], plen: 0 }
+}
+
+/// ESCAPING, scalar documents: a 1-byte string with an arbitrary ASCII byte (controls, quote, backslash included)
 #[kani::proof]
 #[kani::unwind(6)]
 #[kani::stub(crate::parser::parse_value, no_text)]
+#[kani::stub(std::string::String::from_utf8_lossy, lossy_ascii)]
 fn km_text_scalar_str1() {
     let s = sc_str1().it;
     let doc = layout_scalar(&s);
     let mut t = Txt::new();
     t.string(s.payload());
     assert!(t.same(&to_string(doc.as_slice())));
-    assert!(t.same(&to_pretty_string(doc.as_slice())));
 }
 
-/// scalar documents: a 2-byte string (escape followed by literal, literal followed by escape, two escapes, ...)
+/// the same through to_pretty_string
 #[kani::proof]
 #[kani::unwind(6)]
 #[kani::stub(crate::parser::parse_value, no_text)]
+#[kani::stub(std::string::String::from_utf8_lossy, lossy_ascii)]
+fn km_pretty_scalar_str1() {
+    let s = sc_str1().it;
+    let doc = layout_scalar(&s);
+    let mut t = Txt::new();
+    t.string(s.payload());
+    assert!(t.same(&to_pretty_string(doc.as_slice())));
+}
+
+/// ESCAPING, a 2-byte string (escape followed by literal, literal followed by escape, two escapes, two literals)
+#[kani::proof]
+#[kani::unwind(6)]
+#[kani::stub(crate::parser::parse_value, no_text)]
+#[kani::stub(std::string::String::from_utf8_lossy, lossy_ascii)]
 fn km_text_scalar_str2() {
     let s = sc_str2().it;
     let doc = layout_scalar(&s);
@@ -238,123 +273,98 @@ fn km_text_scalar_str2() {
     assert!(t.same(&to_string(doc.as_slice())));
 }
 
-/// arrays [str2, null|bool, str1]
+/// ESCAPING inside an array, with an element after the string: [str1, null|true]
 #[kani::proof]
 #[kani::unwind(6)]
 #[kani::stub(crate::parser::parse_value, no_text)]
-fn km_text_array3() {
-    let a = [sc_str2().it, sc_w0().it, sc_str1().it];
+#[kani::stub(std::string::String::from_utf8_lossy, lossy_ascii)]
+fn km_text_array_str1() {
+    let a = [sc_str1().it, nt()];
     let doc = lay_array(&a);
     let mut t = Txt::new();
     t.ch(b'[');
     t.scalar(&a[0]);
     t.ch(b',');
     t.scalar(&a[1]);
-    t.ch(b',');
-    t.scalar(&a[2]);
     t.ch(b']');
     assert!(t.same(&to_string(doc.as_slice())));
 }
 
-/// objects {k1: str1, k2: null|bool} (keys need escaping too)
+/// ESCAPING of object keys: {k: null|true} with an arbitrary 1-byte ASCII key
 #[kani::proof]
 #[kani::unwind(6)]
 #[kani::stub(crate::parser::parse_value, no_text)]
-fn km_text_object2() {
-    let k = [key1(), key2()];
-    let v = [sc_str1().it, sc_w0().it];
+#[kani::stub(std::string::String::from_utf8_lossy, lossy_ascii)]
+fn km_text_object_key1() {
+    let k = [key1()];
+    let v = [nt()];
     let doc = lay_object(&k, &v);
     let mut t = Txt::new();
     t.ch(b'{');
     t.string(k[0].payload());
     t.ch(b':');
     t.scalar(&v[0]);
-    t.ch(b',');
-    t.string(k[1].payload());
-    t.ch(b':');
-    t.scalar(&v[1]);
     t.ch(b'}');
     assert!(t.same(&to_string(doc.as_slice())));
 }
 
-/// nested empty containers followed by a further element: [[], {}, str1]
+/// STRUCTURE, compact: [[], {}, ["x"], {"k": null|true}, "q\"\n\u{1}"] -- concrete strings (one with the three escape
+/// classes), items null|true; the real from_utf8_lossy is used
 #[kani::proof]
 #[kani::unwind(6)]
 #[kani::stub(crate::parser::parse_value, no_text)]
-fn km_text_nested_empty() {
-    let last = sc_str1().it;
-    let doc = lay_array(&[cont(&lay_array(&[])), cont(&lay_object(&[], &[])), last]);
+fn km_text_structure() {
+    let v = nt();
+    let d1 = lay_array(&[cont(&lay_array(&[])), cont(&lay_object(&[], &[])), cont(&lay_array(&[cstr(b"x")]))]);
     let mut t = Txt::new();
-    t.lit(b"[[],{},");
-    t.scalar(&last);
-    t.ch(b']');
-    assert!(t.same(&to_string(doc.as_slice())));
+    t.lit(b"[[],{},[\"x\"]]");
+    assert!(t.same(&to_string(d1.as_slice())));
+    let d2 = lay_array(&[cont(&lay_object(&[cstr(b"k")], &[v])), cstr(b"q\"\n\x01")]);
+    let mut u = Txt::new();
+    u.lit(b"[{\"k\":");
+    u.scalar(&v);
+    u.lit(b"},\"q\\\"\\n\\u0001\"]");
+    assert!(u.same(&to_string(d2.as_slice())));
 }
 
-/// one nesting level: [[str1], {k: null|bool}, str1] -- the element after the nested containers checks the offsets
-#[kani::proof]
-#[kani::unwind(6)]
-#[kani::stub(crate::parser::parse_value, no_text)]
-fn km_text_nested() {
-    let e = sc_str1().it;
-    let k = key1();
-    let v = sc_w0().it;
-    let last = sc_str1().it;
-    let doc = lay_array(&[cont(&lay_array(&[e])), cont(&lay_object(&[k], &[v])), last]);
-    let mut t = Txt::new();
-    t.lit(b"[[");
-    t.scalar(&e);
-    t.lit(b"],{");
-    t.string(k.payload());
-    t.ch(b':');
-    t.scalar(&v);
-    t.lit(b"},");
-    t.scalar(&last);
-    t.ch(b']');
-    assert!(t.same(&to_string(doc.as_slice())));
-}
-
-// ------------------------------------------------------------------ C03 pretty text
-/// pretty arrays [str1, null|bool, [], str1]: two-space indentation, one element per line; an EMPTY nested container is
-/// printed by the current code as an opening bracket, an empty line, the parent's indentation and the closing bracket
+/// STRUCTURE, pretty array ["a", null|true, [], ["b"], false]: two-space indentation, one element per line; an EMPTY
+/// nested container is printed by the current code as the opening bracket, an empty line, the parent's indentation and
+/// the closing bracket
 #[kani::proof]
 #[kani::unwind(6)]
 #[kani::stub(crate::parser::parse_value, no_text)]
 fn km_pretty_array() {
-    let a = [sc_str1().it, sc_w0().it, cont(&lay_array(&[])), sc_str1().it];
-    let doc = lay_array(&a);
+    let v = nt();
+    let f = It { word: T_FALSE, pay: [0u8; PAYMAX], plen: 0 };
+    let d1 = lay_array(&[cstr(b"a"), v, cont(&lay_array(&[])), f]);
     let mut t = Txt::new();
-    t.lit(b"[\n  ");
-    t.scalar(&a[0]);
-    t.lit(b",\n  ");
-    t.scalar(&a[1]);
+    t.lit(b"[\n  \"a\",\n  ");
+    t.scalar(&v);
     t.lit(b",\n  [\n\n  ],\n  ");
-    t.scalar(&a[3]);
-    t.lit(b"\n]");
-    assert!(t.same(&to_pretty_string(doc.as_slice())));
+    t.lit(b"false\n]");
+    assert!(t.same(&to_pretty_string(d1.as_slice())));
+    let d2 = lay_array(&[cont(&lay_array(&[cstr(b"b")])), v]);
+    let mut u = Txt::new();
+    u.lit(b"[\n  [\n    \"b\"\n  ");
+    u.lit(b"],\n  ");
+    u.scalar(&v);
+    u.lit(b"\n]");
+    assert!(u.same(&to_pretty_string(d2.as_slice())));
 }
 
-/// pretty objects {k1: str1, k2: {k1': null|bool}}: `"key": value`, nested members at four spaces
+/// STRUCTURE, pretty object {"a": "x", "bc": {"d": null|true}, ...}: `"key": value`, nested members at four spaces
 #[kani::proof]
 #[kani::unwind(6)]
 #[kani::stub(crate::parser::parse_value, no_text)]
 fn km_pretty_object() {
-    let k = [key1(), key2()];
-    let ik = key1();
-    let iv = sc_w0().it;
-    let v = [sc_str1().it, cont(&lay_object(&[ik], &[iv]))];
-    let doc = lay_object(&k, &v);
+    let v = nt();
+    let inner = cont(&lay_object(&[cstr(b"d")], &[v]));
+    let doc = lay_object(&[cstr(b"a"), cstr(b"bc")], &[cstr(b"x"), inner]);
     let mut t = Txt::new();
-    t.lit(b"{\n  ");
-    t.string(k[0].payload());
-    t.lit(b": ");
-    t.scalar(&v[0]);
-    t.lit(b",\n  ");
-    t.string(k[1].payload());
-    t.lit(b": {\n    ");
-    t.string(ik.payload());
-    t.lit(b": ");
-    t.scalar(&iv);
+    t.lit(b"{\n  \"a\": \"x\",\n  ");
+    t.lit(b"\"bc\": {\n");
+    t.lit(b"    \"d\": ");
+    t.scalar(&v);
     t.lit(b"\n  }\n}");
     assert!(t.same(&to_pretty_string(doc.as_slice())));
 }
@@ -462,7 +472,7 @@ fn km_cmpkey_array_prefix2() {
     check_keys(&layout_array(&b), &layout_array(&a));
 }
 
-/// arrays of different length: [x] against [x', y] (both directions), [] against [x]
+/// arrays of different length: [x] against [x', y] (both directions)
 #[kani::proof]
 #[kani::unwind(30)]
 #[kani::stub(crate::parser::parse_value, no_text)]
@@ -471,6 +481,14 @@ fn km_cmpkey_array_len() {
     let b = [sc_w0().it, sc_w0().it];
     check_keys(&layout_array(&a), &layout_array(&b));
     check_keys(&layout_array(&b), &layout_array(&a));
+}
+
+/// [] against [x]
+#[kani::proof]
+#[kani::unwind(30)]
+#[kani::stub(crate::parser::parse_value, no_text)]
+fn km_cmpkey_array_empty() {
+    let a = [sc_w0().it];
     check_keys(&layout_array(&[]), &layout_array(&a));
 }
 
@@ -569,6 +587,21 @@ fn parse_total(maxlen: usize) {
     kani::assume(len <= maxlen);
     let r = crate::parser::parse_value(&raw[..len]);
     // no panic, no out-of-bounds access, no arithmetic overflow on the way; the answer is a value or an error
+    match r {
+        Ok(_) => {}
+        Err(_) => {}
+    }
+}
+
+/// every input of length <= 1, ANY byte value
+#[kani::proof]
+#[kani::unwind(3)]
+#[kani::stub(fast_float2::parse::parse_float, ff_any)]
+fn km_parse_total1() {
+    let raw: [u8; 1] = kani::any();
+    let len: usize = kani::any();
+    kani::assume(len <= 1);
+    let r = crate::parser::parse_value(&raw[..len]);
     match r {
         Ok(_) => {}
         Err(_) => {}
